@@ -162,6 +162,33 @@ fn main() {
             }
             println!("{}", Value::Array(out));
         }
+        // identifiers of the form __xyz that occur in the expansions of one input: the generator's own names (used to craft
+        // inputs in which the USER spells such a name)
+        Some("ids") => {
+            let inputs = load_inputs(arg(&args, "--inputs").unwrap());
+            let i: usize = arg(&args, "--index").unwrap().parse().unwrap();
+            let (text, kinds) = &inputs[i];
+            let mut ids = std::collections::BTreeSet::new();
+            for k in kinds {
+                let s = expand(text, k);
+                let b = s.as_bytes();
+                let mut j = 0;
+                while j + 2 < b.len() {
+                    let boundary = j == 0 || !(b[j - 1].is_ascii_alphanumeric() || b[j - 1] == b'_');
+                    if boundary && b[j] == b'_' && b[j + 1] == b'_' && (b[j + 2].is_ascii_alphanumeric()) {
+                        let mut e = j + 2;
+                        while e < b.len() && (b[e].is_ascii_alphanumeric() || b[e] == b'_') {
+                            e += 1;
+                        }
+                        ids.insert(s[j..e].to_string());
+                        j = e;
+                    } else {
+                        j += 1;
+                    }
+                }
+            }
+            println!("{}", json!(ids.into_iter().collect::<Vec<_>>()));
+        }
         Some("sim") => sim(&args),
         Some("static") => static_checks(),
         _ => {
